@@ -66,6 +66,25 @@ SHAPES = {
 BASE_SHAPE = "x[2]"
 CLASS_NAMES = ("A", "Bb", "Cc")
 
+# ---- siblings: further array variables of the same kind as x ---------------------------------------------------------
+# _expand_vectors keeps positional bookkeeping while it expands (outputs.index / pop / insert, delay_states.index / pop /
+# append with the parallel delay_arguments, the new list of each group, the parallel symbols / values lists of the
+# substitution, the zipped substitution list of the attributes): a position computed before an insertion is only seen to be
+# stale when a *second* array of the same kind follows one with a number of elements != 1.  A sibling is a top-level vector
+# y[n] / u[n] declared before or after x that carries every feature of x (see build); the configurations are all
+# declaration orders of two arrays (n = 1, 2, 3 next to x) and of three arrays of mixed sizes, and -- for the one list
+# that mixes two groups, `outputs` (differentiated outputs first, then algebraic ones) -- the same with siblings of the
+# other differentiation status (`~`: a state next to an algebraic x and vice versa).
+SIB_NAMES = ("y", "u")
+SIBS_SAME = (
+    "y[1],x", "y[2],x", "y[3],x", "x,y[1]", "x,y[2]", "x,y[3]",
+    "y[1],x,u[3]", "y[3],x,u[1]", "y[1],u[3],x", "y[3],u[1],x", "x,y[1],u[3]", "x,y[3],u[1]",
+)  # fmt: skip
+SIBS_FLIP = (
+    "~y[1],x", "~y[3],x", "x,~y[1]", "x,~y[3]",
+    "~y[3],x,u[1]", "y[3],x,~u[1]", "~y[1],x,~u[3]", "x,~y[3],~u[1]", "y[1],~u[3],x", "x,y[3],~u[1]",
+)  # fmt: skip
+
 
 def full_dims(path):
     return tuple(d for _, dims in path for d in dims)
@@ -192,6 +211,7 @@ DEFAULT = {
     "delay": None,
     "integer": False,
     "neighbours": False,
+    "sibs": None,
 }
 
 ALTS = {
@@ -208,6 +228,7 @@ ALTS = {
     "delay": ["whole", "loop", "elem"],
     "integer": [True],
     "neighbours": [True],
+    "sibs": list(SIBS_SAME + SIBS_FLIP),
 }
 
 
@@ -256,42 +277,95 @@ def valid(spec):
         return False
     if spec["eq"] in ("const", "zero") and kind != "alg":
         return False  # an equation `x = <constant>` next to der(x) / on an input / parameter / constant is not a model
+    if spec["sibs"] is not None:
+        sib = [(n, flip) for name, n, flip in sib_layout(spec["sibs"]) if name != "x"]
+        if any(flip for _, flip in sib):
+            # a sibling of the other differentiation status: only `outputs` lists states and algebraic variables together
+            if kind not in ("alg", "state") or not spec["output"] or spec["integer"] or spec["eq"] in ("const", "zero"):
+                return False
+        if spec["eq"] == "rows" and any(n < 2 for n, _ in sib):
+            return False  # (a slice needs >= 2 elements)
     return True
+
+
+def flipped(kind):
+    return {"alg": "state", "state": "alg"}[kind]
+
+
+def sib_layout(sibs):
+    """Declaration order of the subject variables: [(name, n, other differentiation status)], x has n = None."""
+    if sibs is None:
+        return [("x", None, False)]
+    out = []
+    for tok in sibs.split(","):
+        flip = tok.startswith("~")
+        tok = tok.lstrip("~")
+        if tok == "x":
+            out.append(("x", None, False))
+        else:
+            m = re.match(r"^([a-z])\[(\d)\]$", tok)
+            out.append((m.group(1), int(m.group(2)), flip))
+    return out
 
 
 def build(spec):
     """Program text, declared table {unexpanded name: (path, is_der, attributes spanning the outer dims)} for every
     variable the program declares, and the number of elements of x."""
     kind, path = spec["kind"], SHAPES[spec["shape"]]
+    table = {"p": ([("p", ())], False, ())}
+    classes, decls, eqs, init = [], ["parameter Real p = 2;"], [], []
+    for name, n, flip in sib_layout(spec["sibs"]):
+        if name == "x":
+            _subject(spec, kind, path, "", 0, classes, decls, eqs, init, table)
+        else:
+            # a sibling: a top-level vector that carries every feature of x (category -- or the other differentiation
+            # status --, output, attributes in the same forms with its own values, equation / der / delay forms with its
+            # own helpers w<name>, z<name>, q<name>) that can be written for a top-level vector
+            _subject(spec, flipped(kind) if flip else kind, [(name, (n,))], name, 1 + SIB_NAMES.index(name), classes, decls, eqs, init, table)
+    lines = classes + ["model M"] + ["  " + s for s in decls]
+    if init:
+        lines += ["initial equation"] + ["  " + s for s in init]
+    lines += ["equation"] + ["  " + s for s in eqs] + ["end M;"]
+    return "\n".join(lines) + "\n", table, int(np.prod(full_dims(path)))
+
+
+def _subject(spec, kind, path, sfx, rank, lines, decls, eqs, init, table):
+    """Declarations and equations of one subject variable (x: rank 0, sfx ""; siblings: rank 1, 2, sfx = their name).
+    Attribute values, equation coefficients and delay durations depend on the rank, so that two subjects never agree."""
+    sibling = rank > 0
     integer = spec["integer"]
     typ = "Integer" if integer else "Real"
     nested = len(path) > 1
     leaf_name, leaf = path[-1]
     D = full_dims(path)
-    n_el = int(np.prod(D))
     X = whole_ref(path)
+    Wn, Zn, Qn = "w" + sfx, "z" + sfx, "q" + sfx
     dimtxt = lambda dims: "[%s]" % ", ".join(map(str, dims)) if dims else ""  # noqa: E731
-    table = {}
     need = set()
     lead = set()  # attributes of x whose value spans the outer (component array) dimensions
 
     # -- the leaf declaration
     mods, topmods = [], []
-    salt = 0.0
+    salt = 10.0 * rank
     for a in ("start", "min", "max", "nominal"):
         f = spec[a]
         salt += 0.25
         if f is None:
             continue
-        if f == "mod-full":
-            topmods.append("%s = %s" % (a, lit(D, {"start": 1.5, "min": -7.5, "max": 11.5, "nominal": 2.5}[a] + salt, 1.0, _ifmt(integer))))
-        elif f == "mod-each":
-            topmods.append("each %s = %s" % (a, (_ifmt(integer) or (lambda v: repr(float(v))))(3.5 + salt)))
-        elif f == "mod-each-p":
-            topmods.append("each %s = %s * p" % (a, repr(3.5 + salt)))
+        if f in MOD_FORMS:
+            if sibling:
+                continue  # (a modification through a component: x only)
+            if f == "mod-full":
+                topmods.append("%s = %s" % (a, lit(D, {"start": 1.5, "min": -7.5, "max": 11.5, "nominal": 2.5}[a] + salt, 1.0, _ifmt(integer))))
+            elif f == "mod-each":
+                topmods.append("each %s = %s" % (a, (_ifmt(integer) or (lambda v: repr(float(v))))(3.5 + salt)))
+            elif f == "mod-each-p":
+                topmods.append("each %s = %s * p" % (a, repr(3.5 + salt)))
         else:
             t, q = attr_text(a, f, leaf, integer, salt, nested)
-            mods.append(t)
+            if t is None and sibling:
+                continue  # (a form of the component class: x only)
+            mods.append(t.replace(" = q", " = " + Qn) if q == "q" else t)
             if q:
                 need.add(q)
             if q == "k":
@@ -314,12 +388,11 @@ def build(spec):
         if not leaf:
             val = " = %s" % ("2" if integer else "0.75")
         else:
-            t, _ = attr_text("value", f, leaf, integer, 0.0, nested)
+            t, _ = attr_text("value", f, leaf, integer, 10.0 * rank, nested)
             t = t.replace("each ", "")
             val = " = " + t.split(" = ", 1)[1]
     leaf_decl = "%s%s %s%s%s%s;" % (prefix, typ, leaf_name, dimtxt(leaf), "(%s)" % ", ".join(mods) if mods else "", val)
 
-    lines = []
     # -- classes for nested paths (innermost first)
     scope = path[:-1]  # where x is declared
     here = lambda n: ".".join([c for c, _ in scope] + [n])  # noqa: E731
@@ -328,11 +401,12 @@ def build(spec):
         local.append("parameter Real k = 3;")
         table[here("k")] = (scope + [("k", ())], False, ())
     if "q" in need:
-        local.append("parameter Real q%s = %s;" % (dimtxt(leaf), lit(leaf, 3.0, 2.0)))
-        table[here("q")] = (scope + [("q", leaf)], False, ())
+        local.append("parameter Real %s%s = %s;" % (Qn, dimtxt(leaf), lit(leaf, 3.0 + 10.0 * rank, 2.0)))
+        table[here(Qn)] = (scope + [(Qn, leaf)], False, ())
     npre = prefix.replace("output ", "")
     nval = lambda v: (" = " + v) if kind in ("parameter", "constant") else ""  # noqa: E731
-    if spec["neighbours"]:
+    neighbours = spec["neighbours"] and not sibling  # (the surroundings of x; a sibling is itself a neighbour)
+    if neighbours:
         # an array before and a scalar after x in the same scope and category (for nested paths both are scalars in the
         # class, i.e. arrays over the component dimensions: a third dimension is outside the unexpanded backend)
         if nested:
@@ -342,7 +416,7 @@ def build(spec):
             local.append("%s%s v[3]%s;" % (npre, typ, nval("{7, 8, 9}")))
             table["v"] = ([("v", (3,))], False, ())
     local.append(leaf_decl)
-    if spec["neighbours"]:
+    if neighbours:
         local.append("%s%s t%s;" % (npre, typ, nval("4")))
         table[here("t")] = (scope + [("t", ())], False, ())
     if nested:
@@ -364,37 +438,35 @@ def build(spec):
         x_decls = local
     table[X] = (path, False, tuple(sorted(lead)))
 
-    decls = ["parameter Real p = 2;"] + x_decls
-    table["p"] = ([("p", ())], False, ())
-    decls.append("Real w%s;" % dimtxt(D))
+    decls += x_decls
+    decls.append("Real %s%s;" % (Wn, dimtxt(D)))
     # (with `x = w` alias detection hands x's attributes to w: they span what they span on x)
-    table["w"] = ([("w", D)], False, tuple(sorted(lead)), leaf) if spec["eq"] == "revalias" else ([("w", D)], False, ())
+    table[Wn] = ([(Wn, D)], False, tuple(sorted(lead)), leaf) if spec["eq"] == "revalias" else ([(Wn, D)], False, ())
 
-    eqs, init = [], []
     idxs = list(np.ndindex(*D))
-    coef = lambda k: repr(1.5 + k)  # noqa: E731
-    W = [("w", D)]
+    coef = lambda k: repr(1.5 + k + 10.0 * rank)  # noqa: E731
+    W = [(Wn, D)]
     two = len(D) == 2
     e = spec["eq"]
     if e in ("whole", "init", "const", "zero"):
-        eqs.append("w = 2 * %s;" % X)
+        eqs.append("%s = %d * %s;" % (Wn, 2 + rank, X))
     if e == "const":
         # the whole array assigned a constant: a literal with distinct entries (1-D; the unexpanded backend rejects a
         # nested literal in an equation) or fill()
         if len(D) == 1:
-            eqs.append("%s = %s;" % (X, lit(D, 1.5, 1.0, _ifmt(integer))))
+            eqs.append("%s = %s;" % (X, lit(D, 1.5 + 10.0 * rank, 1.0, _ifmt(integer))))
         else:
             eqs.append("%s = fill(%s, %s);" % (X, "2" if integer else "1.5", ", ".join(map(str, D))))
     if e == "zero":
         eqs.append("%s = fill(%s, %s);" % (X, "0" if integer else "0.0", ", ".join(map(str, D))))
     if e == "alias":
-        eqs.append("w = %s;" % X)
+        eqs.append("%s = %s;" % (Wn, X))
     if e == "negalias":
-        eqs.append("w = -%s;" % X)
+        eqs.append("%s = -%s;" % (Wn, X))
     if e == "revalias":
-        eqs.append("%s = w;" % X)
+        eqs.append("%s = %s;" % (X, Wn))
     if e == "init":
-        init.append("w = 3 * %s;" % X)
+        init.append("%s = %d * %s;" % (Wn, 3 + rank, X))
         init.append("%s = %s;" % (elem_ref(W, idxs[-1]), elem_ref(path, idxs[0])))
     if e == "elem":
         for k, ix in enumerate(idxs):
@@ -402,54 +474,50 @@ def build(spec):
     if e == "rows":
         if two:
             for i in range(D[0]):
-                eqs.append("%s = %s * %s;" % ("w[%d, :]" % (i + 1), coef(i), row_ref(path, i)))
+                eqs.append("%s = %s * %s;" % ("%s[%d, :]" % (Wn, i + 1), coef(i), row_ref(path, i)))
         else:
-            eqs.append("w[1:%d] = 3 * %s[2:%d];" % (D[0] - 1, X if not nested else elem_ref(path, (0,)).rsplit("[", 1)[0], D[0]))
-            eqs.append("w[%d] = %s;" % (D[0], elem_ref(path, (0,))))
+            eqs.append("%s[1:%d] = %d * %s[2:%d];" % (Wn, D[0] - 1, 3 + rank, X if not nested else elem_ref(path, (0,)).rsplit("[", 1)[0], D[0]))
+            eqs.append("%s[%d] = %s;" % (Wn, D[0], elem_ref(path, (0,))))
     if e == "loop":
         last = D[1] - 1 if two else 0
         eqs.append("for i in 1:%d loop" % D[0])
-        eqs.append("  %s = i * %s;" % (loop_ref(W, "i", last), loop_ref(path, "i", last)))
+        eqs.append("  %s = %s * %s;" % (loop_ref(W, "i", last), "i" if not rank else "%d * i" % (1 + rank), loop_ref(path, "i", last)))
         eqs.append("end for;")
     if kind == "state":
         d = spec["der"]
+        neg = "-" if not rank else "-%d * " % (1 + rank)
         if d in ("whole", "init"):
-            eqs.append("der(%s) = -%s;" % (X, X))
+            eqs.append("der(%s) = %s%s;" % (X, neg, X))
         if d == "init":
             init.append("der(%s) = 0;" % elem_ref(path, idxs[-1]))
         if d == "elem":
             for k, ix in enumerate(idxs):
                 eqs.append("der(%s) = -%s * %s;" % (elem_ref(path, ix), coef(k), elem_ref(path, ix)))
         if d == "first":
-            eqs.append("der(%s) = -%s;" % (elem_ref(path, idxs[0]), elem_ref(path, idxs[-1])))
+            eqs.append("der(%s) = %s%s;" % (elem_ref(path, idxs[0]), neg, elem_ref(path, idxs[-1])))
         if d == "loop":
             last = D[1] - 1 if two else 0
             eqs.append("for j in 1:%d loop" % D[0])
-            eqs.append("  der(%s) = -j * %s;" % (loop_ref(path, "j", last), loop_ref(path, "j", last)))
+            eqs.append("  der(%s) = %sj * %s;" % (loop_ref(path, "j", last), neg, loop_ref(path, "j", last)))
             eqs.append("end for;")
         table["der(%s)" % X] = (path, True, ())
     dl = spec["delay"]
+    dur = lambda m: "p" if m * (1 + 2 * rank) == 1 else "%d * p" % (m * (1 + 2 * rank))  # noqa: E731
     if dl == "whole":
-        decls.append("Real z%s;" % dimtxt(D))
-        table["z"] = ([("z", D)], False, ())
-        eqs.append("z = delay(%s, p);" % X)
+        decls.append("Real %s%s;" % (Zn, dimtxt(D)))
+        table[Zn] = ([(Zn, D)], False, ())
+        eqs.append("%s = delay(%s, %s);" % (Zn, X, dur(1)))
     if dl == "loop":
-        decls.append("Real z%s;" % dimtxt(D))
-        table["z"] = ([("z", D)], False, ())
+        decls.append("Real %s%s;" % (Zn, dimtxt(D)))
+        table[Zn] = ([(Zn, D)], False, ())
         last = D[1] - 1 if two else 0
         eqs.append("for k in 1:%d loop" % D[0])
-        eqs.append("  %s = delay(3 * %s, p);" % (loop_ref([("z", D)], "k", last), loop_ref(path, "k", last)))
+        eqs.append("  %s = delay(%d * %s, %s);" % (loop_ref([(Zn, D)], "k", last), 3 + rank, loop_ref(path, "k", last), dur(1)))
         eqs.append("end for;")
     if dl == "elem":
-        decls.append("Real z;")
-        table["z"] = ([("z", ())], False, ())
-        eqs.append("z = delay(%s, 2 * p);" % elem_ref(path, idxs[-1]))
-
-    lines += ["model M"] + ["  " + s for s in decls]
-    if init:
-        lines += ["initial equation"] + ["  " + s for s in init]
-    lines += ["equation"] + ["  " + s for s in eqs] + ["end M;"]
-    return "\n".join(lines) + "\n", table, n_el
+        decls.append("Real %s;" % Zn)
+        table[Zn] = ([(Zn, ())], False, ())
+        eqs.append("%s = delay(%s, %s);" % (Zn, elem_ref(path, idxs[-1]), dur(2)))
 
 
 # ---- running pymoca ---------------------------------------------------------------------------------------------------
@@ -782,7 +850,7 @@ def _short(v):
 P_FORMS = ("each-p", "mx-arr", "param-arr", "list-mx", "each-k", "mod-each-p")  # attribute depends on a parameter
 ALIAS_EQS = ("alias", "negalias", "revalias")
 CONST_EQS = ("const", "zero")
-EVE_REGEX = r".*\bx\b"  # the subject variable under any path (match() anchors at the start of the name)
+EVE_REGEX = r".*\b[xyu]\b"  # the subject variables (x under any path, siblings y / u); match() anchors at the start
 
 
 def _p_attr(spec):
